@@ -279,19 +279,22 @@ Section Residue.
 End Residue.
 
 (* ---------- refuted witnesses of the remaining known findings ---------- *)
-(* link-through-file-rejected: a dangling relative link whose target passes through a regular
-   file of the tree is refused (ENOTDIR from the Lstat walk) when the file is extracted first,
-   and restored when it comes later *)
+(* link-through-file-rejected (fixed): a dangling relative link whose target passes through a
+   regular file of the tree used to be refused when the file had been extracted before it:
+   resolveRelToBase returned the ENOTDIR of its Lstat walk ([check_dirs_prefix]); it now
+   restores whatever the order *)
 Definition through_file_tree (file : string) : tree :=
   Dir 493 0 [ (b file, File (b "x") 420 0); (b "l", Link (b file ++ b "/x/y") 0) ].
 
-Theorem through_file_refuted :
-  benign_tree [b "d"] (through_file_tree "a") = false /\
-  wf_treeb (through_file_tree "a") = true /\ modes_okb (through_file_tree "a") = true /\
-  extract [b "d"] 18 false (tar_entries [b "d"] true (through_file_tree "a")) = Err XSymlinkDir /\
+Theorem through_file_prefix_refuted :
+  (let f := [([b "a"], NFile (b "x") 420)] in
+   check_dirs_prefix f [] [b "a"; b "x"; b "y"] = false /\ check_dirs f [] [b "a"; b "x"; b "y"] = true) /\
+  benign_tree [b "d"] (through_file_tree "a") = true /\
+  (exists f', extract [b "d"] 18 false (tar_entries [b "d"] true (through_file_tree "a")) = Ok f' /\
+     fs_lookup f' [b "l"] = Some (NLink (b "a/x/y")) /\ fs_lookup f' [b "a"] = Some (NFile (b "x") 420)) /\
   exists f', extract [b "d"] 18 false (tar_entries [b "d"] true (through_file_tree "z")) = Ok f' /\
     fs_lookup f' [b "l"] = Some (NLink (b "z/x/y")) /\ fs_lookup f' [b "z"] = Some (NFile (b "x") 420).
 Proof.
-  repeat (split; [vm_compute; reflexivity|]).
-  eexists. split; [vm_compute; reflexivity|]. split; vm_compute; reflexivity.
+  split; [vm_compute; split; reflexivity|]. split; [vm_compute; reflexivity|].
+  split; eexists; (split; [vm_compute; reflexivity|]); split; vm_compute; reflexivity.
 Qed.
